@@ -381,11 +381,14 @@ Definition guard_impls_pinned_b : bool :=
 Record cfg := {
   d_dispatch_all : bool;      (* InvokeBVM dispatches every method of the reflect method set: promoted ones and ones without *Response *)
   d_add_unjournaled : bool;   (* Stub.Add / AddObject write through AddState, which bypasses the undo log *)
-  d_unguarded : list N        (* unguarded internal entry points present (numbers of [Defect]) *)
+  d_unguarded : list N;       (* unguarded internal entry points present (numbers of [Defect]) *)
+  d_guard_memo : list string  (* contracts whose caller check remembers, in a field of the registered (process-wide)
+                                 contract object, that it once succeeded - not the case in the code as it is; the flag
+                                 exists to state what the theorems exclude and for the refutation witness *)
 }.
-Definition cfg_fixed : cfg := {| d_dispatch_all := false; d_add_unjournaled := false; d_unguarded := [] |}.
+Definition cfg_fixed : cfg := {| d_dispatch_all := false; d_add_unjournaled := false; d_unguarded := []; d_guard_memo := [] |}.
 Definition all_unguarded : list N := [10; 11; 12; 13; 14; 15; 16; 17]%N.
-Definition cfg_faithful : cfg := {| d_dispatch_all := true; d_add_unjournaled := true; d_unguarded := all_unguarded |}.
+Definition cfg_faithful : cfg := {| d_dispatch_all := true; d_add_unjournaled := true; d_unguarded := all_unguarded; d_guard_memo := [] |}.
 Definition memN (n : N) (l : list N) : bool := existsb (N.eqb n) l.
 
 (** * Dispatcher *)
@@ -477,6 +480,54 @@ Section Dispatch.
              else (Fail (if m_resp m then E_OTHER else E_PANIC), leak f ws st)
     end.
 End Dispatch.
+
+(** ** The node: ledger state plus what the registered contract objects keep in their own fields.
+    The contract objects are created once per process (executor.registerBoltContracts) and only their Stub is
+    re-injected per invocation; anything else they store survives from one transaction to the next and is
+    outside the ledger.  [n_memo] lists the contracts whose caller check has succeeded at least once. *)
+Record nstate := { n_led : state; n_memo : list string }.
+
+(** a call as it reaches a contract: from an external account ([nc_from] = None) or cross-invoked by the
+    contract whose address constant is given (CurrentCaller = that contract) *)
+Record ncall := { nc_call : call; nc_from : option string }.
+
+Definition designated (m : method_t) (from : option string) : bool :=
+  match from, class_of m with
+  | Some c, Some (Internal callers) => mem_str c callers
+  | _, _ => false
+  end.
+
+Section NodeDispatch.
+  Variable body : call -> state -> bool * list write.
+
+  Definition invoke_n (f : cfg) (ns : nstate) (nc : ncall) : outcome * nstate :=
+    let k := nc_call nc in
+    match find_method (k_contract k) (k_method k) with
+    | None => (Fail E_NO_METHOD, ns)
+    | Some m =>
+        if negb (dispatchable f m) then (Fail E_NO_METHOD, ns)
+        else if negb (args_ok (m_params m) (k_args k)) then (Fail E_PANIC, ns)
+        else
+          let memo_on := mem_str (k_contract k) (d_guard_memo f) in
+          let remembered := memo_on && mem_str (k_contract k) (n_memo ns) && (match class_of m with Some (Internal _) => true | _ => false end) in
+          let pass := match nc_from nc with
+                      | Some _ => designated m (nc_from nc) || match class_of m with Some (Internal _) => false | _ => true end
+                      | None => effective_guard f m (k_caller k)
+                      end in
+          if negb (pass || remembered) then (Fail E_NO_PERMISSION, ns)
+          else
+            let memo' := if memo_on && designated m (nc_from nc) then k_contract k :: n_memo ns else n_memo ns in
+            let '(ok, ws) := body k (n_led ns) in
+            if m_resp m && ok then (Ok, {| n_led := commit ws (n_led ns); n_memo := memo' |})
+            else (Fail (if m_resp m then E_OTHER else E_PANIC), {| n_led := leak f ws (n_led ns); n_memo := memo' |})
+    end.
+
+  Fixpoint run_ncalls (f : cfg) (ns : nstate) (h : list ncall) : nstate :=
+    match h with
+    | [] => ns
+    | c :: t => run_ncalls f (snd (invoke_n f ns c)) t
+    end.
+End NodeDispatch.
 
 (** the regions no open method may touch: interchain counters and index records, transaction records, broker counters *)
 Definition protected : list string := ["InterchainContractAddr"; "TransactionMgrContractAddr"; "InterBrokerContractAddr"].
@@ -594,7 +645,7 @@ Definition sub_cfgs (f : cfg) (m : method_t) : list cfg :=
             | Some n => if memN n (d_unguarded f) then [d_unguarded f; filter (fun x => negb (x =? n)%N) (d_unguarded f)] else [d_unguarded f]
             | None => [d_unguarded f]
             end in
-  flat_map (fun a => flat_map (fun b => map (fun u => {| d_dispatch_all := a; d_add_unjournaled := b; d_unguarded := u |}) ug)
+  flat_map (fun a => flat_map (fun b => map (fun u => {| d_dispatch_all := a; d_add_unjournaled := b; d_unguarded := u; d_guard_memo := d_guard_memo f |}) ug)
                               (opts (d_add_unjournaled f))) (opts (d_dispatch_all f)).
 
 (** one case: the call as issued (contract, method, audit, arguments well typed?, caller relation bits) and what was observed *)
